@@ -138,6 +138,7 @@ namespace sim
     void stackmon_before(sqf::runtime::runtime& rt, sqf::runtime::instruction& in);
     void stackmon_after(sqf::runtime::runtime& rt, sqf::runtime::instruction& in);
     void stackmon_frame_done(sqf::runtime::runtime& rt);
+    void stackmon_frame_popped(sqf::runtime::runtime& rt, bool had_value);
     void stackmon_slice_begin(sqf::runtime::runtime& rt);
     void stackmon_slice_end(sqf::runtime::runtime& rt);
 
